@@ -6,6 +6,7 @@
 
 mod autos;
 mod csets;
+mod hist;
 mod infra;
 mod pool;
 mod prog;
@@ -31,6 +32,9 @@ fn engine_for(prop: &str) -> Option<Box<dyn Engine>> {
         "C08" => Some(Box::new(strs::c08_engine())),
         "C09" => Some(Box::new(strs::c09_engine())),
         "C17" => Some(Box::new(strs::c17_engine())),
+        "C07" => Some(Box::new(hist::C07Engine)),
+        "C10" => Some(Box::new(hist::C10Engine)),
+        "C16" => Some(Box::new(hist::C16Engine)),
         "C11" => Some(Box::new(csets::c11_engine())),
         "C12" => Some(Box::new(csets::c12_engine())),
         "C15" => Some(Box::new(csets::c15_engine())),
